@@ -1202,6 +1202,28 @@ func fingerprint(fd *ast.FuncDecl) string {
 	return hex.EncodeToString(h[:8])
 }
 
+// assignmentsTo: the source text of every assignment or definition of one of the named variables in the function,
+// in source order ("x = f(x)", "y := ...").
+func assignmentsTo(fd *ast.FuncDecl, names ...string) []string {
+	if fd == nil {
+		return []string{"<function not found>"}
+	}
+	var out []string
+	ast.Inspect(fd.Body, func(n ast.Node) bool {
+		if as, ok := n.(*ast.AssignStmt); ok {
+			for _, l := range as.Lhs {
+				for _, nm := range names {
+					if src(l) == nm {
+						out = append(out, src(as))
+					}
+				}
+			}
+		}
+		return true
+	})
+	return out
+}
+
 // packageVars lists every package-level variable of the packages a query runs through (files guarded by the verif
 // build tag excluded; of the antlr package only the hand-written listener): "dir/file.go:name type-or-initialiser".
 func packageVars(sp string) []string {
@@ -1441,6 +1463,8 @@ func main() {
 	b.WriteString("]\n")
 	b.WriteString("def bundleProducerBytesFlow : List String := " + leanStrList(valueFlow(findFunc(gens, "processDirectory"), "json.MarshalIndent", "json.Marshal")) + "\n")
 	b.WriteString("def bundleConsumerBytesFlow : List String := " + leanStrList(valueFlow(findFunc(ci, "downloadRuleset"), "io.ReadAll", "ioutil.ReadAll")) + "\n")
+	b.WriteString("def bundleConsumerUrl : List String := " + leanStrList(assignmentsTo(findFunc(ci, "downloadRuleset"), "ruleset", "url")) + "\n")
+	b.WriteString("def bundleProducerPath : List String := " + leanStrList(assignmentsTo(findFunc(gens, "processDirectory"), "jsonFileName", "jsonFilePath")) + "\n")
 	b.WriteString("def bundleConsumerLoop : List String := " + leanStrList(loopConds(findFunc(ci, "downloadRuleset"))) + "\n")
 	b.WriteString("def bundleProducerLoop : List String := " + leanStrList(loopConds(findFunc(gens, "processDirectory"))) + "\n")
 	b.WriteString("def bundleProducerTop : List String := " + leanStrList(structTags(gens, "CQLFiles")) + "\n")
